@@ -63,6 +63,9 @@ func runC06(p *eng.Prog, r *eng.Report, tier string) {
 	c15WakeUpOnlyOpenReaders(c, "C06.26")
 	c06LateSelfPresenceToHandler(c, "C06.27")
 	c06WaiterWithdrawnOnEveryExit(c, "C06.28")
+	// C06.29 "once the caller closes the response the serve loop continues with
+	// the next stanza": the element reader is bounded to its element (= C08.2)
+	c08ReaderAs(c, "C06.29")
 	attrGetNotUsed(c, "C06.23")
 	// C06.7 a hand-off record queued for the handler is taken back when the call fails
 	handoffWithdrawn(c, "C06.7", "muc", "(*Channel).JoinPresence", "muc.Channel.join")
